@@ -199,6 +199,7 @@ class PVLEncoder(object):
                 posteq.strip(),
                 width=(self.width - len(self.newline)),
                 replace_whitespace=False,
+                expand_tabs=False,
                 initial_indent=new_prefix,
                 subsequent_indent=(" " * len(new_prefix)),
                 break_long_words=False,
